@@ -1,10 +1,26 @@
-from lib import flow
+from lib import flow, vlib
 
-NS = 43  # slots of the PlanSim walk + 1
+NS = 44  # slots of the PlanSim walk (42 catalog slots + the clock) + 1
 
 
 def _has_entry(t):
     return any(x.get("has") for e in t["events"] for x in e.get("lk", []))
+
+
+def _skew_not_realised(t):
+    """machinery guard: the driver places the catalog's time base relative to time.Now(); a plan whose source time is
+    10 minutes or more ahead of (behind) the local clock must have been run with the TSO key really ahead (not ahead)"""
+    for e in t["events"]:
+        if not isinstance(e, dict):
+            continue
+        if e.get("op") == "machinery":
+            return True
+        sk = (e.get("cat") or {}).get("skew")
+        if sk in ("ahead", "far") and e.get("rel") != "ahead":
+            return True
+        if sk == "behind" and e.get("rel") != "notahead":
+            return True
+    return False
 
 
 C = dict(
@@ -13,6 +29,7 @@ C = dict(
         dict(module="DroppedSnapshot", cfg="DroppedSnapshot_MCq.cfg", tiers=["quick"], workers=8),
         dict(module="DroppedSnapshot", cfg="DroppedSnapshot_MCpart.cfg", workers=8),
         dict(module="DroppedSnapshot", cfg="DroppedSnapshot_MCclash.cfg", workers=8),
+        dict(module="DroppedSnapshot", cfg="DroppedSnapshot_MCskew.cfg", tiers=["thorough"], workers=8),
         dict(module="DroppedSnapshot", cfg="DroppedSnapshot_MC.cfg", tiers=["thorough"], workers=8),
     ],
     plan_sources=[
@@ -29,8 +46,10 @@ C = dict(
     trace=("DroppedSnapshot_Trace", "DroppedSnapshot_Trace.cfg"),
     death="violation",
     nontrivial=_has_entry,
+    bad_trace=_skew_not_realised,
     rule="one plan = one source catalog (databases live / tombstoned with or without a downstream copy, collection and "
-         "partition incarnations in every state, repeated names); each is written to an embedded etcd and the real "
+         "partition incarnations in every state, repeated names; the source's current time = TSO key 10 min behind, equal to, "
+         "3 s / 10 min / 23 days AHEAD of the wall clock of the host that takes the snapshot); each is written to an embedded etcd and the real "
          "GetAllDroppedObj is called with a fake Milvus target and with a nil target; a trace is non-trivial if the "
          "table has at least one entry a name of the universe resolves to; distinct = distinct event sequences",
     assumptions=[
@@ -42,6 +61,8 @@ C = dict(
         "objects of a tombstoned database: the statement is applied only where the database can be identified - Milvus target, the "
         "database still exists downstream and no other database has a readable collection record of the same name; elsewhere an "
         "entry is optional (keys below the pseudo database '_tome' are ignored); names of a live database are always checked",
+        "'the source's current time' is the time stored under the source's TSO key, whatever the clock of the cdc host shows (the driver "
+        "places the catalog's time base relative to time.Now() so that the key really is behind / ahead of the wall clock); "
         "'just below the current time' is read as: within the last millisecond before the TSO time; "
         "a partition record still 'created' below a dropped collection incarnation may or may not count as dropped",
         "TLC exhaustiveness holds for the constants in the cfg files only; the large configuration is sampled with tlc -simulate",
@@ -50,4 +71,11 @@ C = dict(
 
 
 def run(tier, replay=None):
+    if not replay:
+        r = vlib.run_tlc("DroppedSnapshot", "DroppedSnapshot_ClampLocal.cfg", workers=4, timeout=300)
+        if not ({"ContractMilvus", "ContractKafka"} & set(r.violated)):
+            raise vlib.Inconclusive("DroppedSnapshot_ClampLocal.cfg no longer violates the contract: the position of the "
+                                    "source's time relative to the local clock is a vacuous input")
+        vlib.log("[tlc] DroppedSnapshot/DroppedSnapshot_ClampLocal.cfg: violates %s as expected "
+                 "(source time clamped to the local clock)" % sorted(set(r.violated)))
     return flow.standard_flow(C, tier, replay)
